@@ -254,7 +254,9 @@ int inter_sscanf (svalue_t * arg, svalue_t * s0, svalue_t * s1, int num_arg) {
                       if ((tmp[1] == 'x' || tmp[1] == 'X') &&
                           isxdigit (tmp[2]))
                         break;
-                      tmp += 2;
+                      /* only this '0' is known not to start a number: the next byte may
+                       * be the terminator, or the '0' of "0x1" */
+                      tmp++;
                     }
                 }
               while (*tmp);
